@@ -464,7 +464,7 @@ func init() {
 		ID:    "C14",
 		Level: "exploration",
 		Rule: "case = one well-formed timeline (ordered by start, non-decreasing ends, start<end) x targets d x filler in {false,true}, compared with the statement written as code (drop start>=d, clip end>d, filler [d-1ms,d) iff requested and the last remaining cue ends before d or none remains, unchanged when already lasting d); identity and content of kept cues. " +
-			"Grid (exhaustive): every timeline of 0..3 (0..4 thorough) cues on 0..6 ms incl. overlapping and abutting cues, d in 1..8 ms. Random: <=30 cues, d before/inside/between/on boundaries/after. distinct_nontrivial = distinct (timeline, d-set) inputs compared.",
+			"Grid (exhaustive): every timeline of 0..3 (0..4 thorough) cues on 0..6 ms incl. overlapping and abutting cues, d in 1..8 ms. Random: <=30 cues, d before/inside/between/on boundaries/after. A fifth of the random lists has 30..3000 cues (sizes around 64/128/256/1024 included); before a filler case another list of the process gets a filler which its owner edits in place: the new filler must read like a pristine one; lists carry metadata of every source format and some have a past (see C09). distinct_nontrivial = distinct (timeline, d-set) inputs compared.",
 		Assumptions: []string{"d >= 1 ms; cues ordered by start with non-decreasing ends and start < end (the property's precondition)"},
 		Cases:       func(tier string) int64 { return int64(len(c14Lists(tier))) + c14Rand(tier) },
 		Exhaustive: func(tier string) string {
@@ -504,7 +504,7 @@ func init() {
 	fw.Register(&fw.Property{
 		ID:          "C15",
 		Level:       "exploration",
-		Rule:        "case = 1..12 cues with boundaries in [0,24h] (ns, us, ms or s granular) and a reference quadruple a1 != a2 anywhere in [0,24h] (also 1 ms apart), slope one of 25/23.976, 23.976/25, 30/29.97, 29.97/30, 1, 1/2, 2, 1001/1000, 1000/1001, 3/2 or random in 0.5..2; d1 may lie below a1 so that boundaries map below zero. Oracle: math/big.Rat value of d1+(t-a1)(d2-d1)/(a2-a1), |got-exact| <= 1 us per boundary, cue length scaled (<= 2 us), a1->d1 and a2->d2, boundary order preserved for positive slope, cue count/identity/content unchanged. CLI: apply-linear-correction on SRT (ms truncation allowed for). distinct_nontrivial = distinct (list, quadruple) inputs compared.",
+		Rule:        "case = 1..12 cues with boundaries in [0,24h] (ns, us, ms or s granular) and a reference quadruple a1 != a2 anywhere in [0,24h] (also 1 ms apart), slope one of 25/23.976, 23.976/25, 30/29.97, 29.97/30, 1, 1/2, 2, 1001/1000, 1000/1001, 3/2 or random in 0.5..2; d1 may lie below a1 so that boundaries map below zero. Oracle: math/big.Rat value of d1+(t-a1)(d2-d1)/(a2-a1), |got-exact| <= 1 us per boundary, cue length scaled (<= 2 us), a1->d1 and a2->d2, boundary order preserved for positive slope, cue count/identity/content unchanged. CLI: apply-linear-correction on SRT (ms truncation allowed for). Lists carry metadata of every source format (frame rates 7/24/25/30 included) and some have a past (see C09); the CLI is given the reference points in either order. distinct_nontrivial = distinct (list, quadruple) inputs compared.",
 		Assumptions: []string{"slopes between 0.5 and 2, boundaries within [0,24h] (the property's quantifier)"},
 		Cases:       func(tier string) int64 { return c15Lib(tier) + c15Cli(tier) },
 		Anchors:     []string{"Subtitles.ApplyLinearCorrection", "astisub/main.go apply-linear-correction"},
